@@ -235,8 +235,8 @@ def reserved_flow(ctx, rep, cl):
         if path.kind == "raise" or not path.feasible():
             continue
         given = path.truth(("compare", ("is",), (rw, ("const", None))))
-        if given is not False:
-            continue  # no user words on this path
+        if given is True:
+            continue  # no user words on this path (a path that never tests the parameter may carry user words)
         for i, e in enumerate(path.effects):
             if e.kind == "call" and any(t[0] == "cls" and t[1] is swa for t in G.types_of(e.a[1], f_fa)):
                 n_word += 1
